@@ -55,6 +55,7 @@ DoSave     == Len(slots) < MaxSlots /\ Save /\ NoSim
 DoRestore  == (\E s \in 1..Len(slots) : Restore(s)) /\ NoSim
 \* bounded exploration of the larger graph (state constraints for the thorough tier)
 Depth6 == TLCGet("level") <= 6
+Depth7 == TLCGet("level") <= 7
 Depth8 == TLCGet("level") <= 8
 Next == DoSimulate \/ DoAssign \/ DoSetAuto \/ DoUpdate \/ DoTargets \/ DoSave \/ DoRestore
 SInit == Init /\ lastsim = <<>> /\ preval = val
